@@ -478,3 +478,119 @@ impl VSendPool {
     self.pool.verif_state()
   }
 }
+
+
+// ---------------------------------------------------------------------------------------------
+// io_uring worker: the table of operations that are in the kernel (what a CloseFd completion does to it)
+// ---------------------------------------------------------------------------------------------
+
+#[cfg(feature = "io-uring")]
+pub struct VOpTracker {
+  t: crate::io_uring_backend::worker::verif_internal_op_tracker::InternalOpTracker,
+}
+
+#[cfg(feature = "io-uring")]
+impl VOpTracker {
+  const BASE: u64 = 1_000_000_000;
+
+  pub fn new() -> Self {
+    Self { t: crate::io_uring_backend::worker::verif_internal_op_tracker::InternalOpTracker::new() }
+  }
+
+  fn describe(d: &crate::io_uring_backend::worker::verif_internal_op_tracker::InternalOpDetails) -> String {
+    use crate::io_uring_backend::worker::verif_internal_op_tracker::{InternalOpPayload as P, InternalOpType as T};
+    let ty = match d.op_type {
+      T::Accept => "accept",
+      T::RingRead => "read",
+      T::Send => "send",
+      T::SendZeroCopy => "zc",
+      T::CloseFd => "close",
+      T::GenericHandlerOp => "generic",
+      T::EventFdPoll => "eventfd",
+      T::RingReadMultishot => "mread",
+      T::AsyncCancel => "cancel",
+      T::SendRawVectored => "vec",
+      T::SendZeroCopyLeased => "lease",
+    };
+    let buf = match &d.payload {
+      P::SendZeroCopy { send_buf_id, .. } | P::SendZeroCopyLeased { send_buf_id } => format!(":{}", send_buf_id.0),
+      P::SendBuffer { buffer, .. } => format!(":{}b", buffer.len()),
+      P::RawVectored(b) => format!(":{}b", b.total_len),
+      _ => String::new(),
+    };
+    format!("{}{}@{}", ty, buf, d.fd)
+  }
+
+  /// a new operation goes to the kernel; kinds: send, vec, zc:<buffer>, lease:<buffer>, read, mread, accept, cancel
+  pub fn submit(&mut self, fd: i32, kind: &str) -> u64 {
+    use crate::io_uring_backend::send_buffer_pool::RegisteredSendBufferId as Id;
+    use crate::io_uring_backend::worker::verif_internal_op_tracker::{InternalOpPayload as P, InternalOpType as T, PinnedEgressBatch};
+    let (k, arg) = kind.split_once(':').unwrap_or((kind, "0"));
+    let id = Id(arg.parse().unwrap_or(0));
+    let (ty, payload) = match k {
+      "send" => (T::Send, P::SendBuffer { buffer: bytes::Bytes::from_static(b"0123456789"), send_op_flags: 0, app_op_ud: None, app_op_name: None }),
+      "vec" => {
+        let payloads = vec![bytes::Bytes::from_static(b"01234"), bytes::Bytes::from_static(b"56789")];
+        let iovecs: Vec<libc::iovec> =
+          payloads.iter().map(|b| libc::iovec { iov_base: b.as_ptr() as *mut _, iov_len: b.len() }).collect();
+        (T::SendRawVectored, P::RawVectored(PinnedEgressBatch { iovecs: iovecs.into_boxed_slice(), payloads, total_len: 10, send_op_flags: 0 }))
+      }
+      "zc" => (
+        T::SendZeroCopy,
+        P::SendZeroCopy { send_buf_id: id, original_data: bytes::Bytes::from_static(b"0123456789"), send_op_flags: 0, app_op_ud: 0, app_op_name: String::new() },
+      ),
+      "lease" => (T::SendZeroCopyLeased, P::SendZeroCopyLeased { send_buf_id: id }),
+      "read" => (T::RingRead, P::None),
+      "mread" => (T::RingReadMultishot, P::None),
+      "accept" => (T::Accept, P::None),
+      _ => (T::AsyncCancel, P::None),
+    };
+    self.t.new_op_id(fd, ty, payload) - Self::BASE
+  }
+
+  /// the CloseFd completion for `fd` has arrived: what is taken out of the table (and dropped) there and then
+  pub fn close_fd(&mut self, fd: i32) -> Vec<String> {
+    let mut v: Vec<String> = self.t.remove_ops_for_fd(fd).iter().map(Self::describe).collect();
+    v.sort();
+    v
+  }
+
+  /// the (final) completion of operation `key` has arrived
+  pub fn complete(&mut self, key: u64) -> Option<String> {
+    self.t.take_op_details(key + Self::BASE).map(|d| Self::describe(&d))
+  }
+
+  /// the first completion of a zero-copy send (more to come): the entry waits for the notification under the same key
+  pub fn await_notification(&mut self, key: u64) -> Option<String> {
+    use crate::io_uring_backend::worker::verif_internal_op_tracker::{InternalOpDetails, InternalOpPayload as P, InternalOpType as T};
+    let d = self.t.take_op_details(key + Self::BASE)?;
+    let out = Self::describe(&d);
+    if let P::SendZeroCopy { send_buf_id, .. } | P::SendZeroCopyLeased { send_buf_id } = d.payload {
+      self.t.reinsert_for_notification(
+        key + Self::BASE,
+        InternalOpDetails { fd: d.fd, op_type: T::SendZeroCopyLeased, payload: P::SendZeroCopyLeased { send_buf_id } },
+      );
+    }
+    Some(out)
+  }
+
+  /// every entry, ascending by key: (key, description, waiting for a zero-copy notification?). A notification entry whose
+  /// key has meanwhile been given to a new operation cannot be looked up any more: it reads `shadowed`.
+  pub fn state(&self) -> Vec<(u64, String, bool)> {
+    let slab_len = self.t.op_to_details.len();
+    let ids = self.t.all_op_ids();
+    let mut v: Vec<(u64, String, bool)> = Vec::new();
+    for (i, ud) in ids.iter().enumerate() {
+      let key = *ud - Self::BASE;
+      if i < slab_len {
+        v.push((key, self.t.op_to_details.get(key as usize).map(Self::describe).unwrap_or_default(), false));
+      } else if self.t.op_to_details.contains(key as usize) {
+        v.push((key, "shadowed".into(), true));
+      } else {
+        v.push((key, self.t.get_op_details(*ud).map(Self::describe).unwrap_or_default(), true));
+      }
+    }
+    v.sort();
+    v
+  }
+}
